@@ -42,8 +42,22 @@ func (vx *Vaxis) NewStyledString(s string, defaultStyle Style) *StyledString {
 				continue
 			}
 			params := strings.Split(seq, ";")
-			for _, param := range params {
+			for i := 0; i < len(params); i++ {
+				param := params[i]
 				subs := strings.Split(param, ":")
+				// The legacy form of the extended colours separates
+				// its fields with ';' (38;5;n and 38;2;r;g;b). The
+				// renderer emits it with VAXIS_FORCE_LEGACY_SGR
+				if len(subs) == 1 && (subs[0] == "38" || subs[0] == "48") && i+1 < len(params) {
+					switch {
+					case params[i+1] == "5" && i+2 < len(params):
+						subs = []string{subs[0], "5", params[i+2]}
+						i += 2
+					case params[i+1] == "2" && i+4 < len(params):
+						subs = []string{subs[0], "2", params[i+2], params[i+3], params[i+4]}
+						i += 4
+					}
+				}
 				switch subs[0] {
 				case "0":
 					style = defaultStyle
